@@ -372,6 +372,30 @@ theorem C03_registration_while_poll_waits :
   refine ⟨⟨1, 3, 0, crossTrace, Nat.le_refl 1, rfl⟩, ?_⟩
   decide
 
+/-! ### A waker that panics inside the wake pass -/
+
+/-- **Nobody else is lost when a waker panics.** For every list of waiting wakers, number to
+wake and index of the one that panics: every waker other than the panicking one is either woken
+by that pass or back on the list (in order), so the next pass finds it. Before the repair
+88aefc0 the wakers after the panicking one were dropped with the pass's local vector. -/
+theorem C03_waker_panic_loses_nobody (ws : List Nat) (a i : Nat) (hi : i < min a ws.length) :
+    (unwindPass ws a i).1 ++ ws[i]?.toList ++ (unwindPass ws a i).2 = ws := by
+  unfold unwindPass
+  simp only [hi, ↓reduceIte]
+  have hl : i < ws.length := Nat.lt_of_lt_of_le hi (Nat.min_le_right _ _)
+  rw [List.getElem?_eq_getElem hl]
+  simp only [Option.toList_some, List.append_assoc, List.singleton_append]
+  have h2 : ws[i] :: ws.drop (i + 1) = ws.drop i := (List.drop_eq_getElem_cons hl).symm
+  rw [h2]
+  exact List.take_append_drop i ws
+
+/-- The scenario of the correspondence (`blk pwaker`): three waiters, two slots, the first
+waker panics: nobody woken by that pass, `[701, 702]` back on the list, both woken next time. -/
+example : unwindPass [700, 701, 702] 2 0 = ([], [701, 702]) := by decide
+
+/-- What happened before the repair: the rest of the vector was dropped. -/
+example : (([] : List Nat), ([] : List Nat)) ≠ unwindPass [700, 701, 702] 2 0 := by decide
+
 end A10.Blocked
 
 /-! ### A blocked future and a free slot between two polls
